@@ -112,6 +112,7 @@ type vpCfg struct {
 	Structured bool          `json:"structuredHeaders"`
 
 	// not part of the abstract record: an existing Redis to share (a restarted / second proxy instance)
+	AdvertisePKCE string
 	shareRedis *miniredis.Miniredis `json:"-"`
 	shareIdP   *vpIdP               `json:"-"`
 }
@@ -250,6 +251,7 @@ func vpNewWorld(cfg *vpCfg) (*vpWorld, error) {
 		w.idp, w.idpShared = cfg.shareIdP, true
 	} else {
 		w.idp = vpNewIdP("main")
+		w.idp.advertise = cfg.AdvertisePKCE
 	}
 	if cfg.ExtraIssuer {
 		w.xidp = vpNewIdP("extra")
